@@ -666,7 +666,7 @@ func sweep(bin string, def *checkDef, check, tier string, baseSeed uint64, cfg t
 					w2.stop()
 					mu.Lock()
 					if r2.died {
-						r.Violation = &Violation{Oracle: "process-died", Msg: "the simulator process died while running this seed (twice): " + lastLines(r2.stderr, 40)}
+						r.Violation = &Violation{Oracle: "process-died", Msg: "the simulator process died while running this seed (twice): " + faultHead(r2.stderr, 24)}
 						r.Seed = job.Seed
 						if firstViol == nil {
 							firstViol = r
@@ -1137,4 +1137,22 @@ func writeEvidence(def *checkDef, check, tier string, seed uint64, a *agg, wall 
 	if err := os.WriteFile(filepath.Join(verifDir, "evidence", def.property+".json"), b, 0644); err != nil {
 		fatal2("cannot write evidence: %v", err)
 	}
+}
+
+// faultHead returns the part of a dead worker's stderr that names the fault:
+// from the first "unexpected fault address" / "fatal error" / "panic:" line,
+// n lines on (the faulting goroutine's innermost frames); the last lines if
+// no such line is found.
+func faultHead(stderr string, n int) string {
+	lines := strings.Split(stderr, "\n")
+	for i, l := range lines {
+		if strings.HasPrefix(l, "unexpected fault address") || strings.HasPrefix(l, "fatal error:") || strings.HasPrefix(l, "panic:") || strings.HasPrefix(l, "SIG") {
+			j := i + n
+			if j > len(lines) {
+				j = len(lines)
+			}
+			return strings.Join(lines[i:j], "\n")
+		}
+	}
+	return lastLines(stderr, n)
 }
